@@ -38,6 +38,9 @@ type Net struct {
 	// OnDeliver is called on the scheduler goroutine right after a chunk has been
 	// delivered to endpoint c (fault placement by delivery count).
 	OnDeliver func(c *Conn)
+	// OnReadDone is called by the reading goroutine when a Read has taken n bytes
+	// off the connection (before the schedule point that follows).
+	OnReadDone func(c *Conn, n int)
 	// OnConn is called when a connection pair has been established.
 	OnConn func(client, server *Conn)
 	// RefuseAll makes every dial fail (network outage)
@@ -393,6 +396,9 @@ func (c *Conn) Read(p []byte) (int, error) {
 			c.rbuf = c.rbuf[n:]
 			c.mu.Unlock()
 			c.peer.credit(n)
+			if f := c.net.OnReadDone; f != nil {
+				f(c, n)
+			}
 			// the read has completed; what the caller does with the data may be
 			// overtaken by other goroutines (optional schedule point)
 			if simrt.YieldSoft("netread-done " + c.Name()) {
